@@ -46,6 +46,29 @@ def cuts(R, W, infmt, infile, cutsfile):
     return 0
 
 
+def as_ndarray(mod, items):
+    import numpy as np
+    if not items:
+        return items
+    try:
+        first = items[0]
+        if isinstance(first, (np.integer, np.floating, np.complexfloating)) and all(type(x) is type(first) for x in items):
+            return np.array(items, dtype=type(first))
+        dt = mod.get_dtype(type(first))
+        if dt.fields is None:
+            return items
+        for name in dt.names:
+            if dt.fields[name][0].kind not in "iufcb" or dt.fields[name][0].shape != ():
+                return items
+        arr = np.zeros(len(items), dtype=dt)
+        for i, it in enumerate(items):
+            for name in dt.names:
+                arr[i][name] = getattr(it, name)
+        return arr
+    except Exception:
+        return items
+
+
 def main():
     if len(sys.argv) < 9:
         print("usage error", file=sys.stderr)
@@ -110,6 +133,11 @@ def main():
                             getattr(w, "write_" + s)([])
                         elif is_stream and mode == "list":
                             getattr(w, "write_" + s)(list(v))
+                        elif is_stream and mode == "ndarray":
+                            # the items handed over as one NumPy array where that is possible (numeric scalars; flat records of numeric
+                            # fields as a structured array of get_dtype(Record), the aligned layout NumPy users build), else as a list
+                            items = list(v)
+                            getattr(w, "write_" + s)(as_ndarray(m, items))
                         else:
                             getattr(w, "write_" + s)(v)
     except Exception as e:
